@@ -22,11 +22,23 @@ use std::sync::Mutex;
 pub struct Item {
     pub name: String,
     pub kind: &'static str,
+    /// part of the small selection that the quick tier runs under the interpreter (kind selector "@quick")
+    pub quick: bool,
     pub run: Box<dyn Fn() -> Result<(), String>>,
 }
 
 fn push(items: &mut Vec<Item>, kind: &'static str, name: String, f: impl Fn() -> Result<(), String> + 'static) {
-    items.push(Item { name, kind, run: Box::new(f) });
+    // quick selection: per variant one header and two body positions of the one-deviation parse (error paths of the
+    // SIMD and scalar decoders), one generation, one binary value, one store, one split, one stream script
+    let quick = name.ends_with("/parse-dev1/base2/pos3")
+        || name.ends_with("/parse-dev1/base2/pos17")
+        || name.ends_with("/parse-dev1/base2/pos29")
+        || name.ends_with("/gen-prefix/S0-mixed/64")
+        || name.ends_with("/binary-dev1/pos0")
+        || name.ends_with("/store/form1")
+        || name.ends_with("/split/13/[3, 4]")
+        || name.ends_with("/stream/70/0");
+    items.push(Item { name, kind, quick, run: Box::new(f) });
 }
 
 const GEN_LENGTHS: [usize; 22] = [0, 1, 2, 3, 4, 5, 6, 7, 8, 9, 10, 11, 49, 50, 51, 63, 64, 65, 127, 128, 255, 257];
@@ -385,7 +397,11 @@ pub fn run(depth: usize, k: usize, n: usize, only: Option<usize>, list: bool, ki
     quiet_panics();
     let mut items = items(depth);
     match kinds {
-        Some(ks) => items.retain(|it| ks.split(',').any(|x| x == it.kind)),
+        Some(ks) => {
+            items.retain(|it| ks.split(',').any(|x| x == it.kind || (x == "@quick" && it.quick)));
+            // race groups first: with at least as many shards as groups each one is the first thing its process does
+            items.sort_by_key(|it| !it.kind.starts_with("race"));
+        }
         // "race" items only make sense one per process: they run when asked for by kind
         None => items.retain(|it| !it.kind.starts_with("race")),
     }
